@@ -4,10 +4,24 @@ import json, os
 HERE = os.path.dirname(os.path.abspath(__file__))
 ALL = ['C%02d' % i for i in range(1, 21)]
 TECH = {
+ 'C05': 'runtime contracts with OLD snapshots on the real boyd_split/raising + set-based recursive reference model; shape x head-assignment sweep + random workload',
+ 'C06': 'runtime contract on the real grammar.extract (count delta vs set-based per-node rule, linearization re-applied to the child blocks); random treebank workload',
+ 'C07': 'runtime contracts on binarize_rule/binarize/reordering_optimal with a spy on the label generators; symbolic yield evaluation of rule chains; exhaustive canonical-rule sweep + extracted grammars, all binarization modes',
+ 'C08': 'offline conservation checker (per-nonterminal counts, flow conservation per symbol) over the grammars recorded from the real extract/binarize in every mode',
+ 'C12': 'runtime contract with OLD snapshot on the real root_attach vs a set-based reference of the docstring; exhaustive small-shape sweep + random workload',
+ 'C16': 'runtime contracts on gap_degree_node/terminal_blocks/gap_degree/disco_order vs set-based runs; accumulator reports through API and real CLI subprocesses on independently encoded files',
  'C19': 'runtime contracts (icontract) on the real navigation functions + set-based reference model; exhaustive small-shape sweep + random workload',
+ 'C20': 'runtime contracts on parse_label/format_label/get_label; inversion + per-component removal oracles; exhaustive string sweep + structured random labels',
 }
 TEXT = {
+ 'C05': 'every boyd_split and raising execution of the workload is compared node for node with a set-based reference (one node per block with block numbers and a unique head block; head-run kept, rest floated) and the result is checked continuous with tokens and label multiset unchanged. All shapes up to 5/6 tokens x head assignments plus random trees to 40 tokens, gap degree to n/2, three head sources, +-root_attach. Held on the executions observed.',
+ 'C06': 'the grammar/lexicon delta of every extract call equals one (rule, linearization, vertical context) occurrence per constituent and one lexicon occurrence per token as computed from a set-based model, the stored linearization is re-applied to the child blocks, and treebank-level totals (counts per LHS, fan-outs, context-freeness) are compared with the spec. Random treebanks with repeated rules. Held on the executions observed.',
+ 'C07': 'for every rule handed to binarize_rule the recorded labels must name a chain in the returned grammar whose stored linearizations compose (symbolic evaluation) to the original yield with consistent fan-outs; deterministic mode is un-binarized and compared with the input; reorderings must be pure renamings. Complete canonical-rule sweep (rank<=4, <=6/7 variables) + extracted grammars, deterministic and 32 Markov modes x 2 reorderings. Held on the executions observed.',
+ 'C08': 'per-nonterminal count sums and per-symbol flow conservation are checked on the treebank grammar and on every binarized grammar (deterministic + Markov v,h 0..3 +-nofanout, both reorderings) against node/token/root counts known from the treebank spec. Held on the executions observed.',
+ 'C12': 'the parent of every node after every root_attach execution equals a set-based reference of the docstring; nothing but root children moves; fields untouched. All shapes up to 5/6 tokens plus random trees with 1..9 root children. Held on the executions observed.',
+ 'C16': 'gap degree, blocks, tree gap degree, continuous reordering are compared with set-based runs on every node; GapDegree/PosTags/SentenceCount totals via API and via real `treetools treeanalysis` processes; agreement of the three discontinuity notions per tree. Held on the executions observed.',
  'C19': 'every evaluation of children/terminals/preorder/postorder/siblings/lca/dominance/levels/export numbering made during the workload (incl. the internal ones) is compared with a set-based model; all unordered tree shapes up to 5 (quick) / 6 (thorough) tokens with shuffled child lists plus random trees to 40 tokens. Held on the executions observed, not a proof.',
+ 'C20': 'format(parse(s)) == s (modulo the two documented default literals), exact removal of each emptied component, trace recognition, separator handling and get_label decorations are checked on every string over an 8-letter alphabet up to length 6 (quick) / 8 (thorough) and on structured random labels with known parts. Held on the executions observed.',
 }
 NOTE = 'trusted: vt/model.py (independent set-based tree model), the spec generators; the repository is only executed and observed. Hooks are attached from outside (no source change).'
 def main():
